@@ -5,6 +5,7 @@
 # remove them with:  tools/try_seed.sh --clean
 set -u
 WT=/tmp/seedcheck/repo
+mkdir -p /tmp/seedcheck; exec 9>/tmp/seedcheck/.lock; flock 9   # one caller at a time: the worktree is shared
 if [ "$1" = "--clean" ]; then git -C /repo worktree remove --force $WT 2>/dev/null; rm -rf /tmp/seedcheck /verif/build/alt; exit 0; fi
 PATCH=$(readlink -f "$1"); shift
 if [ ! -d $WT ]; then mkdir -p /tmp/seedcheck; git -C /repo worktree add -q --detach $WT HEAD || exit 2; fi
